@@ -376,6 +376,62 @@ func Moat(rng *fw.Rng, W int64) Poly {
 	return p
 }
 
+// Nest: islands within lakes within islands, 2-4 levels deep, as ONE polygon: every lake is a C-shaped moat hole whose
+// isthmus (1-3 q wide) keeps the island attached to the land around it, the innermost island carries a plain pond.
+// When the isthmuses close under snapping the result has a chain of nested shells, and every hole has several enclosing
+// candidates. The holes are listed in random order (not from the outside inwards).
+func Nest(rng *fw.Rng, W int64) Poly {
+	u := int64(fw.Pick(rng, []int{2, 4, 4, 8}))
+	depth := 2 + rng.Intn(3)
+	type lvl struct{ lm, mw int64 }
+	lv := make([]lvl, depth)
+	total := int64(0)
+	for i := range lv {
+		lv[i] = lvl{int64(1+rng.Intn(2)) * u, int64(1+rng.Intn(3)) * u}
+		total += 2 * (lv[i].lm + lv[i].mw)
+	}
+	im := int64(1+rng.Intn(2)) * u
+	pond := int64(2+rng.Intn(4)) * u
+	s1 := total + 2*im + pond
+	p := Poly{{{0, 0}, {s1, 0}, {s1, s1}, {0, s1}}}
+	off := int64(0)
+	for i := range lv {
+		a0 := off + lv[i].lm
+		a1 := s1 - a0
+		b0 := a0 + lv[i].mw
+		b1 := s1 - b0
+		bw := int64(1 + rng.Intn(3))
+		c := b0 + 1 + rng.Int63n(max(b1-b0-bw-1, 1))
+		moat := []P{{a1, c + bw}, {a1, a1}, {a0, a1}, {a0, a0}, {a1, a0}, {a1, c}, {b1, c}, {b1, b0}, {b0, b0}, {b0, b1}, {b1, b1}, {b1, c + bw}}
+		// the isthmus on a random side: rotate this moat alone about the centre
+		for k := rng.Intn(4); k > 0; k-- {
+			for vi, v := range moat {
+				moat[vi] = P{s1 - v[1], v[0]}
+			}
+		}
+		p = append(p, moat)
+		off = b0
+	}
+	l0 := off + im
+	if rng.Chance(3, 4) {
+		p = append(p, []P{{l0, l0}, {l0 + pond, l0}, {l0 + pond, l0 + pond}, {l0, l0 + pond}})
+	}
+	// holes in random order, every ring starting at a random vertex
+	holes := p[1:]
+	perm := rng.Perm(len(holes))
+	sh := make(Poly, len(holes))
+	for i, j := range perm {
+		sh[i] = holes[j]
+	}
+	copy(p[1:], sh)
+	for ri := range p {
+		st := rng.Intn(len(p[ri]))
+		p[ri] = append(append([]P{}, p[ri][st:]...), p[ri][:st]...)
+	}
+	_ = W
+	return p
+}
+
 // Degenerate: rings of 0, 1 or 2 points, rings repeating one point, polygons without rings (C06 only).
 func Degenerate(rng *fw.Rng, W int64) Poly {
 	if rng.Chance(1, 12) {
@@ -527,6 +583,39 @@ func Big(rng *fw.Rng, W int64) Poly {
 
 // Huge: a sheet with k x k small holes (k = 23..30: 529-900 holes, 1600-3600 vertices) - beyond any size threshold a
 // "small inputs only" code path could hide behind (worker pools, fixed-size tables, quadratic fallbacks).
+// Zipper: a long narrow inlet (two boundary lines 1 q apart, a vertex in every pixel, cut in from the right side) next to a
+// chain of ponds: ONE hole whose lower boundary runs along the inlet in the same pixel row and whose upper boundary comes
+// down to it at a neck every 6 pixels. At the level where a pixel is 4 q the shell passes every pixel of that row twice and the
+// hole pinches at pixels the shell has already passed twice, adding no doubly-visited pixel of its own. 200-1400 pixels long:
+// both rings have thousands of vertices.
+func Zipper(rng *fw.Rng, W int64) Poly {
+	m := int64(fw.Pick(rng, []int{30, 80, 150, 170, 200, 230})) // necks
+	xs := int64(14)
+	xe := xs + 24*m
+	X := xe + 12
+	H := int64(64)
+	shell := []P{{0, 0}, {X, 0}, {X, 16}}
+	for x := X - 2; x >= 10; x -= 4 {
+		shell = append(shell, P{x, 16})
+	}
+	for x := int64(10); x <= X-2; x += 4 {
+		shell = append(shell, P{x, 17})
+	}
+	shell = append(shell, P{X, 17}, P{X, H}, P{0, H})
+	var hole []P
+	for x := xs; x <= xe; x += 4 {
+		hole = append(hole, P{x, 18})
+	}
+	top := int64(40 + 4*rng.Intn(4))
+	for k := m; k >= 1; k-- {
+		n1, n0 := xs+24*k, xs+24*(k-1)
+		hole = append(hole, P{n1, 19}, P{n1 - 8, top}, P{n0 + 8, top})
+	}
+	hole = append(hole, P{xs, 19})
+	_ = W
+	return Poly{shell, hole}
+}
+
 func Huge(rng *fw.Rng, W int64) Poly {
 	k := int64(23 + rng.Intn(8))
 	pitch := int64(5 + rng.Intn(6)) // q between hole origins
@@ -574,12 +663,16 @@ func ByName(name string, rng *fw.Rng, W int64) Poly {
 		return Border(rng, W)
 	case "moat":
 		return Moat(rng, W)
+	case "nest":
+		return Nest(rng, W)
 	case "degenerate":
 		return Degenerate(rng, W)
 	case "big":
 		return Big(rng, W)
 	case "huge":
 		return Huge(rng, W)
+	case "zipper":
+		return Zipper(rng, W)
 	}
 	panic("unknown generator " + name)
 }
